@@ -1577,6 +1577,11 @@ type c17TCPPlan struct {
 	LateMs  int      `json:"late_ms"` // connector delay
 	Delays  []int    `json:"delays"`  // per stranger, microseconds
 	Relay   bool     `json:"relay"`
+	// RelayLeg (relay runs): the relay's own connection towards the server's tunnel port: "" = fine,
+	// "refuse" = its connector returns nil, "dead" = a connection that is closed at once, "wrong" = a
+	// connection to something that does not present the server's greeting.  The genuine client then gets
+	// no answer to its greeting and the transfer must proceed in-band.
+	RelayLeg string `json:"relay_leg,omitempty"`
 }
 
 func c17RunTCP(p *c17TCPPlan, base string) ([]map[string]any, map[string]any, error) {
@@ -1871,7 +1876,12 @@ func c17RunRelay(p *c17TCPPlan, base string) ([]map[string]any, map[string]any, 
 		return nil, nil, fmt.Errorf("listenForTunnel failed")
 	}
 	r.port = sport
-	r.rec.emit(map[string]any{"e": "reset", "run": p.ID, "scripts": p.Scripts, "outcome": p.Outcome, "relay": true}, nil)
+	if p.RelayLeg != "" {
+		// judged as a run in which the client gets no tunnel (see the projection at the end)
+		r.rec.emit(map[string]any{"e": "reset", "run": p.ID, "scripts": []string{"absent"}, "outcome": "refuse", "relay": true}, nil)
+	} else {
+		r.rec.emit(map[string]any{"e": "reset", "run": p.ID, "scripts": p.Scripts, "outcome": p.Outcome, "relay": true}, nil)
+	}
 
 	// in-band plumbing: server <-> relay <-> filter
 	r.c2sR, r.c2sW = io.Pipe() // relay -> server
@@ -1885,10 +1895,42 @@ func c17RunRelay(p *c17TCPPlan, base string) ([]map[string]any, map[string]any, 
 	r.st.acceptOnTunnel(listener, r.uid, sport)
 	wrapTransferInput(r.st, r.c2sR, false)
 	relay := NewTrzszRelay(crR, &c17PortTap{w: rcW, run: r}, c17WC{r.c2sW}, r.s2cR, TrzszOptions{})
+	var wrongLis net.Listener
+	if p.RelayLeg == "wrong" {
+		if wrongLis, err = net.Listen("tcp", "127.0.0.1:0"); err == nil {
+			defer wrongLis.Close()
+			go func() {
+				for {
+					c, e := wrongLis.Accept()
+					if e != nil {
+						return
+					}
+					go func() { // reads the greeting, says something else, stays open for a while
+						buf := make([]byte, 200)
+						_, _ = c.Read(buf)
+						_, _ = c.Write([]byte("HTTP/1.1 400 Bad Request\r\n\r\n"))
+						time.Sleep(3 * time.Second)
+						c.Close()
+					}()
+				}
+			}()
+		}
+	}
 	relay.SetTunnelConnector(func(port int) net.Conn {
+		switch p.RelayLeg {
+		case "refuse":
+			return nil
+		case "wrong":
+			if wrongLis != nil {
+				port = wrongLis.Addr().(*net.TCPAddr).Port
+			}
+		}
 		c, err := net.DialTimeout("tcp", fmt.Sprintf("127.0.0.1:%d", port), 3*time.Second)
 		if err != nil {
 			return nil
+		}
+		if p.RelayLeg == "dead" {
+			c.Close()
 		}
 		return &c17EOFConn{Conn: c}
 	})
@@ -2024,6 +2066,20 @@ func c17RunRelay(p *c17TCPPlan, base string) ([]map[string]any, map[string]any, 
 	r.close()
 	crW.Close()
 	r.s2cW.Close()
+	if p.RelayLeg != "" {
+		// The relay's listener needs its own leg to the server before it answers; Tunnel.tla's listener
+		// is the server's.  A run with a failing leg is therefore judged on what the two ends agree and
+		// on the transfer's result only (the projection on a run whose connector gave no tunnel): the
+		// greeting exchange with the relay is left out of the recorded events.
+		var evs []map[string]any
+		for _, e := range r.rec.evs {
+			switch e["e"] {
+			case "reset", "act", "sact", "ret", "fs", "end":
+				evs = append(evs, e)
+			}
+		}
+		return evs, info, nil
+	}
 	return r.rec.evs, info, nil
 }
 
@@ -2081,6 +2137,10 @@ func c17Relay(d *vCtx) error {
 				}
 				p.Scripts = []string{first}
 				ns := rng.Intn(3)
+				if p.Outcome == "good" && p.LateMs == 0 && rng.Intn(4) == 0 {
+					p.RelayLeg = []string{"refuse", "dead", "wrong"}[rng.Intn(3)]
+					ns = 0
+				}
 				for k := 0; k < ns; k++ {
 					p.Scripts = append(p.Scripts, scripts[rng.Intn(len(scripts))])
 					p.Delays = append(p.Delays, rng.Intn(3000))
